@@ -190,6 +190,11 @@ impl Ext {
         let ts = |n: u128| ts_of_nanos(n).expect("instant within emit::Timestamp's range");
         match self {
             Ext::None => None,
+            // two public ways to the same extent, chosen by the instants themselves (so a replayed case takes the same
+            // one): the constructors and the `ToExtent` conversions
+            // (what `Event::new(.., ts, ..)`, `Span::new(.., a..b, ..)` and the macros' `extent:` argument go through)
+            Ext::Point(t) if t % 2 == 0 => emit::extent::ToExtent::to_extent(&ts(*t)),
+            Ext::Range(a, b) if (a / 1000 + b / 1000) % 2 == 0 => emit::extent::ToExtent::to_extent(&(ts(*a)..ts(*b))),
             Ext::Point(t) => Some(emit::Extent::point(ts(*t))),
             Ext::Range(a, b) => Some(emit::Extent::range(ts(*a)..ts(*b))),
         }
